@@ -4,6 +4,7 @@ import (
 	"bufio"
 	"fmt"
 	"os"
+	"runtime"
 	"sort"
 	"strings"
 	"testing"
@@ -97,5 +98,26 @@ func TestDevNest(t *testing.T) {
 	fmt.Printf("combos=%d total=%v\n", len(rows), tot)
 	for _, r := range rows[:25] {
 		fmt.Printf("%v %s\n", r.d, r.what)
+	}
+}
+
+// VERIF_DEV=mem: heap growth and time of a nesting input in StoreComments mode.
+func TestDevMem(t *testing.T) {
+	if os.Getenv("VERIF_DEV") != "mem" {
+		t.Skip("dev aid")
+	}
+	open, mid, cl := os.Getenv("VERIF_DEV_OPEN"), os.Getenv("VERIF_DEV_MID"), os.Getenv("VERIF_DEV_CLOSE")
+	for _, mode := range []parser.Mode{0, parser.StoreComments} {
+		for _, n := range []int{1000, 2000, 4000, 8000} {
+			src := strings.Repeat(open, n) + mid + strings.Repeat(cl, n)
+			var m0, m1 runtime.MemStats
+			runtime.GC()
+			runtime.ReadMemStats(&m0)
+			start := time.Now()
+			r := parse(src, mode)
+			d := time.Since(start)
+			runtime.ReadMemStats(&m1)
+			fmt.Printf("mode=%d n=%d %v alloc=%dMB err=%v panic=%q\n", mode, n, d, (m1.TotalAlloc-m0.TotalAlloc)>>20, r.err != nil, r.panic)
+		}
 	}
 }
